@@ -200,7 +200,7 @@ func (t *task) main(ops []Op) {
 	}
 	t.call(reqDone, 0, nil)
 	// final phase
-	e.recheck(0, "C12")
+	e.recheck(0, e.immutabilityProp())
 	t.last(reqFinal)
 }
 
